@@ -396,7 +396,10 @@ impl Gen {
                 4 => Op { op: "b_copy".into(), a: abs(n), ..Default::default() },
                 5 => Op { op: "b_from_owner".into(), a: abs(n.max(1)), mode: if self.r.chance(10) { 1 } else if self.r.chance(15) { 2 } else if self.r.chance(12) { 3 } else { 0 }, ..Default::default() },
                 6 => Op { op: "m_new".into(), ..Default::default() },
-                7 => Op { op: "m_with_capacity".into(), a: abs(self.r.below(2 * self.maxlen + 1)), ..Default::default() },
+                7 => {
+                    let c = if self.r.chance(25) { [16, 17, 32, 33, 48, 64, 65][self.r.below(7)] } else { self.r.below(2 * self.maxlen + 1) };
+                    Op { op: "m_with_capacity".into(), a: abs(c), ..Default::default() }
+                }
                 8 => Op { op: "m_zeroed".into(), a: abs(n), ..Default::default() },
                 9 => Op { op: "m_from_slice".into(), a: abs(n), mode: if self.r.chance(50) { 0 } else { 1 + self.r.below(4) as i64 }, ..Default::default() },
                 _ => Op { op: "b_from_iter".into(), a: abs(n), ..Default::default() },
@@ -491,7 +494,16 @@ impl Gen {
                         }
                         6 | 7 => Op { op: "m_reserve".into(), h, a: self.reserve_arg(), ..Default::default() },
                         8 | 9 => Op { op: "m_try_reclaim".into(), h, a: self.reserve_arg(), ..Default::default() },
-                        10 | 11 => Op { op: "m_extend".into(), h, a: abs(self.r.below(self.maxlen + 1)), mode: self.r.below(10) as i64, ..Default::default() },
+                        10 | 11 => {
+                            // lengths relative to the spare capacity: exactly full, one short of it, one beyond
+                            let a = match self.r.below(8) {
+                                0 => rel("spare", 0),
+                                1 if cap > len => rel("spare", -1),
+                                2 => rel("spare", 1),
+                                _ => abs(self.r.below(self.maxlen + 1)),
+                            };
+                            Op { op: "m_extend".into(), h, a, mode: self.r.below(10) as i64, ..Default::default() }
+                        }
                         12 => Op { op: "m_put_bytes".into(), h, a: abs(self.r.below(self.maxlen + 1)), val: 200 + self.r.below(16) as u8, ..Default::default() },
                         13 => Op { op: "m_fill_spare".into(), h, ..Default::default() },
                         14 => Op { op: "m_write_at".into(), h, a: abs(self.r.below(64)), val: 220 + self.r.below(16) as u8, ..Default::default() },
